@@ -51,6 +51,7 @@ def make(c_sys, typ, stacked, m=None, **kw):
     from quara.objects.state import State
 
     kw.setdefault("is_physicality_required", False)
+    _mshape = kw.pop("mshape", None)
     stacked = np.ascontiguousarray(np.asarray(stacked, dtype=np.float64))
     n = c_sys.dim ** 2
     if typ == "state":
@@ -60,8 +61,11 @@ def make(c_sys, typ, stacked, m=None, **kw):
         return Povm(c_sys, [stacked[i * n : (i + 1) * n].copy() for i in range(m)], **kw)
     if typ == "gate":
         return Gate(c_sys, stacked.reshape(n, n).copy(), **kw)
+    mshape = _mshape
     if typ == "mprocess":
         m = stacked.size // (n * n) if m is None else m
+        if mshape is not None:
+            kw["shape"] = tuple(mshape)  # explicit (multi-axis) outcome layout
         return MProcess(c_sys, [stacked[i * n * n : (i + 1) * n * n].reshape(n, n).copy() for i in range(m)], **kw)
     raise ValueError(typ)
 
